@@ -38,6 +38,9 @@ pub struct Program {
 /// The escape function of the second pair of instances: `<` and `&` rewritten to something the
 /// default escaper never produces.
 fn custom_escape(input: &str, out: &mut dyn std::io::Write) -> std::io::Result<()> {
+    // quoting, like a shell or JSON escaper: what it writes for EMPTY input is visible too (seeded
+    // change C09-13 let the fused write skip the escape function when the value printed as nothing)
+    out.write_all(b"'")?;
     for c in input.chars() {
         match c {
             '<' => out.write_all(b"[lt]")?,
@@ -45,7 +48,7 @@ fn custom_escape(input: &str, out: &mut dyn std::io::Write) -> std::io::Result<(
             c => out.write_all(c.encode_utf8(&mut [0u8; 4]).as_bytes())?,
         }
     }
-    Ok(())
+    out.write_all(b"'")
 }
 
 fn instance(p: &Program, optimise: bool) -> Result<Tera, Out> {
@@ -175,8 +178,8 @@ fn judge(p: &Program, contexts: &[(String, Context)], acc: &mut Acc, family: &st
                 if !same {
                     acc.violation(
                         "fusion-differential:custom-escaper",
-                        format!("context {cname}, escape function rewriting `<` to [lt] and `&` to [amp]: pass off {} / pass on {}", a.show(), b.show()),
-                        || json!({"family": family, "templates": p.templates, "entry": p.entry, "context": cname, "escape_fn": "< -> [lt], & -> [amp], everything else unchanged"}),
+                        format!("context {cname}, escape function quoting its input in '..' and rewriting `<` to [lt], `&` to [amp]: pass off {} / pass on {}", a.show(), b.show()),
+                        || json!({"family": family, "templates": p.templates, "entry": p.entry, "context": cname, "escape_fn": "writes ' + input with < -> [lt], & -> [amp] + '"}),
                     );
                 }
                 acc.case(fused_groups > 0, if a.is_ok() { "custom-escaper:ok" } else { "custom-escaper:err" });
@@ -372,6 +375,10 @@ fn contexts() -> Vec<(String, Context)> {
         // Value::safe_string put into a map): the mark belongs to the value the path ends on
         ("a={b:{c:safe(<i>)}}", V::map(&[("b", V::map(&[("c", V::Safe("<i>".into()))]))])),
         ("a={b:safe(<b>)}", V::map(&[("b", V::Safe("<b>".into()))])),
+        // the empty string, at the root and at the end of a path (prints as nothing: only an escape
+        // function that quotes shows whether it was called)
+        ("a=\"\"", V::s("")),
+        ("a={b:\"\"}", V::map(&[("b", V::s(""))])),
         ("a={b:undefined}", V::map(&[("b", V::Undef)])),
         ("a={b:{c:undefined}}", V::map(&[("b", V::map(&[("c", V::Undef)]))])),
     ] {
